@@ -115,6 +115,11 @@ def mk_liquid_comment_lines(l, r, i1=False, i2=False):
     return "{%" + h(l) + " liquid #\n # c\n echo x\n # " + h(r) + "%}", "X"
 
 
+def mk_raw_ws(l, r, i1=False, i2=False):
+    # the body of a raw block is verbatim, edge whitespace included, with or without hyphens on the inner delimiters
+    return ("{%" + h(l) + " raw " + h(i1) + "%} \n r {{ b }} \t" + "{%" + h(i2) + " endraw " + h(r) + "%}"), " \n r {{ b }} \t"
+
+
 def mk_assign_empty_string(l, r, i1=False, i2=False):
     return "{%" + h(l) + " assign y = '' " + h(r) + "%}", ""
 
@@ -122,7 +127,8 @@ def mk_assign_empty_string(l, r, i1=False, i2=False):
 # block tags with an empty body, and an output of the empty string: singles, and pairs with an output on either side
 EKINDS = {"raw_empty": (mk_raw_empty, 4), "comment_empty": (mk_comment_empty, 4), "doc_empty": (mk_doc_empty, 4), "if_empty": (mk_if_empty, 4),
           "output_empty": (mk_output_empty, 2), "inline_comment_empty": (mk_inline_comment_empty, 2), "inline_comment_tight": (mk_inline_comment_tight, 2),
-          "liquid_comment_lines": (mk_liquid_comment_lines, 2), "assign_empty_string": (mk_assign_empty_string, 2)}
+          "liquid_comment_lines": (mk_liquid_comment_lines, 2), "assign_empty_string": (mk_assign_empty_string, 2),
+          "raw_ws": (mk_raw_ws, 4)}
 KINDS = {
     "output": (mk_output, 2), "assign": (mk_assign, 2), "echo": (mk_echo, 2), "inline_comment": (mk_inline_comment, 2),
     "liquid": (mk_liquid, 2), "raw": (mk_raw, 4), "comment": (mk_comment, 4), "doc": (mk_doc, 4), "if": (mk_if, 4),
